@@ -55,7 +55,7 @@ std::string run_exec_omp(const Cmd& c){
     const double scale = 16.0 * double(1L << (H-1));
     std::vector<std::array<double, D>> pos(N);
     for(long i = 0 ; i < N ; ++i) for(long k = 0 ; k < D ; ++k) pos[i][k] = double(c.L(a++)) / scale;
-    Tree tree(conf, pos, B, mode != 0);
+    Tree tree(conf, pos, B < 0 ? -1 : B, mode != 0);
     tag_cells(tree);
     // buffer ids for the dependence addresses
     std::map<const void*, std::string> bufname;
@@ -128,7 +128,7 @@ std::string run_exec_omp_tsm(const Cmd& c){
     const long Nt = c.L(a++);
     std::vector<std::array<double, D>> pt(Nt);
     for(long i = 0 ; i < Nt ; ++i) for(long k = 0 ; k < D ; ++k) pt[i][k] = double(c.L(a++)) / scale;
-    Tree tree(conf, ps, pt, B, mode != 0);
+    Tree tree(conf, ps, pt, B < 0 ? -1 : B, mode != 0);
     tree.applyToAllCellsSource([](long level, auto&& h, auto&& m, auto&&){ if(m){ m->get().tagLevel1 = level + 1; m->get().tagIndex = h.spaceIndex; } });
     tree.applyToAllCellsTarget([](long level, auto&& h, auto&&, auto&& l){ if(l){ l->get().tagLevel1 = level + 1; l->get().tagIndex = h.spaceIndex; } });
     std::map<const void*, std::string> bufname;
@@ -197,7 +197,7 @@ std::string run_exec_cnt_rt(const Cmd& c){
     const double scale = 16.0 * double(1L << (H-1));
     std::vector<std::array<double, D>> pos(N);
     for(long i = 0 ; i < N ; ++i) for(long k = 0 ; k < D ; ++k) pos[i][k] = double(c.L(a++)) / scale;
-    Tree tree(conf, pos, B, mode != 0);
+    Tree tree(conf, pos, B < 0 ? -1 : B, mode != 0);
     tag_cells(tree);
     TraceSink sink; trace_sink() = &sink;
     mock_rt().reset(MockRuntime::Policy(policy), int(T), (unsigned long)seed);
